@@ -174,6 +174,23 @@ Fixpoint contract_roots (c : dcontract) (leaves : list N) : list N :=
   match leaves with [] => [] | l :: t => let c' := dc_deposit c l in dc_get_root c' :: contract_roots c' t end.
 Definition first_prestate (ops : list op) : option (N * N) :=
   match ops with OPrestate n x _ :: _ => Some (n, x) | _ => None end.
+Fixpoint list_rel2 {A B} (f : A -> B -> bool) (a : list A) (b : list B) : bool :=
+  match a, b with [], [] => true | x :: a', y :: b' => f x y && list_rel2 f a' b' | _, _ => false end.
+(* the deposits processed before each snapshot of a reorg-free, fault-free history, snapshot by snapshot *)
+Fixpoint bridges_at_snaps (ops : list op) (acc : list bridge_ev) : list (list bridge_ev) :=
+  match ops with
+  | [] => []
+  | OSnap :: t => acc :: bridges_at_snaps t acc
+  | o :: t => bridges_at_snaps t (acc ++ bridges_of [o])
+  end.
+(* what GetBridges(0, last) (the list the certificate builder works from) must be: one row per deposit, in chain order, carrying the
+   deposit's block, position and count, and hashing to the contract's leaf value *)
+Definition bridges_listed_ok (bs : list bridge_ev) (rows : list (N * N * N * N * N)) : bool :=
+  list_rel2 (fun (b : bridge_ev) (r : N * N * N * N * N) =>
+              let '(blk, pos, _, dc, leaf) := r in
+              (b_dc b =? dc) && (b_pos b =? pos) &&
+              (leaf =? get_leaf_value (b_lt b) (b_onet b) (b_oaddr b) (b_dnet b) (b_daddr b) (b_amount b) (keccakN (b_meta b))))
+           bs rows.
 Definition spec_c01 (c : bcase) : bool :=
   let bs := bridges_of (c_ops c) in
   (* deposit count of the first leaf the node itself appended (n after a synthetic pre-state of n leaves) *)
@@ -192,7 +209,9 @@ Definition spec_c01 (c : bcase) : bool :=
              (sn_roots s) &&
      (* every deposit has a root *)
      Nat.leb (length expected) (length (filter (fun o => negb (fst o <? base) && match snd o with Some _ => true | None => false end) (sn_roots s))))
-   (c_snaps c) && negb (Nat.eqb (length (c_snaps c)) 0).
+   (c_snaps c) &&
+  list_rel2 (fun bs (s : snap) => negb (sn_bridges_err s) && bridges_listed_ok bs (sn_bridges s)) (bridges_at_snaps (c_ops c) []) (c_snaps c) &&
+  negb (Nat.eqb (length (c_snaps c)) 0).
 
 (* C04 / C07: every query answers as on the reference node (twin run of the real code on the clean history) *)
 Definition spec_asif (c : bcase) : bool :=
